@@ -143,6 +143,8 @@ fn pair_oracle(c: &Pair) -> Verdict {
     // negative < zero < positive
     let z = Duration::ZERO;
     ensure!(lib!(a < z) == (ca < 0) && lib!(a > z) == (ca > 0), "sign vs ZERO: {}", desc);
+    // the sign predicate is the same classification (negative < zero): never true for zero or a positive duration
+    ensure!(lib!(a.is_negative()) == (ca < 0), "is_negative() = {} for {}", a.is_negative(), desc);
     // a + b > a  <=>  b > 0 (away from saturation)
     let sum = ca + cb;
     if sum > DMIN && sum < DMAX {
